@@ -78,6 +78,32 @@ class G:
             return ["func", "ABS", [self.expr(cols, d - 1)], None]
         return ["func", "COALESCE", [self.expr(cols, d - 1), I(0)], None]
 
+    def subvalue(self, cols, which=None):
+        """a compound value that CONTAINS the scalar sub-query (SELECT "x" FROM "u"): inside a CASE branch / ELSE / WHEN
+        condition, a comparison, unary minus, an IN list, arithmetic, a function argument"""
+        sub = ["sub", None]
+        f = F(self.r.choice(cols))
+        g = F(self.r.choice(cols))
+        shapes = [
+            ["case", [[["basic", "gt", f, I(1), None], sub]], g, None],
+            ["case", [[["basic", "gt", f, I(1), None], g]], sub, None],
+            ["case", [[["basic", "lte", f, sub, None], I(5)]], I(6), None],
+            ["case", [[["isnull", f, None], sub], [["basic", "eq", f, I(2), None], ["arith", "add", sub, I(1), None]]], None, None],
+            ["basic", "eq", f, sub, None],
+            ["basic", "lt", sub, f, None],
+            ["neg", sub],
+            ["in", f, ["tuple", [sub, I(2)], None], False, None],
+            ["in", f, ["tuple", [I(7), sub], None], True, None],
+            ["arith", "sub", f, sub, None],
+            ["arith", "mul", sub, ["arith", "add", f, I(1), None], None],
+            ["func", "COALESCE", [sub, I(0)], None],
+            ["between", f, I(0), sub, None],
+            ["isnull", sub, None],
+        ]
+        return shapes[self.r.randrange(len(shapes)) if which is None else which]
+
+    N_SUBVALUES = 14
+
     def hazard_set(self, cols):
         """the shapes of the (repaired) C02 defects that used to change C05's observable, as SET values: regression cases"""
         f = F(self.r.choice(cols))
@@ -246,6 +272,8 @@ class G:
         wheres = [self.crit(cols, 2) for _ in range(self.r.choice([0, 1, 1, 1, 2]))]
         if self.r.random() < 0.03:      # a scalar sub-query as SET value (repaired by 5249523: parenthesised)
             sets[self.r.randrange(len(sets))][1] = ["t", ["sub", None]]
+        if self.r.random() < 0.06:      # ... and nested inside a compound value
+            sets[self.r.randrange(len(sets))][1] = ["t", self.subvalue(setcols)]
         hz = self.r.random()
         hazard = False
         if table != "t":
